@@ -237,40 +237,70 @@ def case_order():
     return _CASE_ORDER
 
 
+_ORDERS = {}
+
+
+def clause_order(kind):
+    """the order in which the live `query_traversal` visits the clauses of a Select / Join / Update, probed once with
+    marker identifiers (and marker constants for LIMIT / OFFSET); a clause the walker does not visit is absent"""
+    if kind not in _ORDERS:
+        from mindsdb_sql import parse_sql
+        from mindsdb_sql.planner.utils import query_traversal
+        A = _ast()
+        sql = {
+            'Select': 'WITH c AS (SELECT p_cte FROM zz) SELECT p_targets FROM p_from WHERE p_where = 1 GROUP BY p_group '
+                      'HAVING p_having = 1 ORDER BY p_order LIMIT 777 OFFSET 888',
+            'Join': 'SELECT 1 FROM p_left JOIN p_right ON p_condition = 1',
+            'Update': 'UPDATE p_table SET a = p_set FROM (SELECT 1 FROM p_fromselect) AS s WHERE p_where = 1',
+        }[kind]
+        seen = []
+
+        def cb(n, **kw):
+            tag = None
+            if isinstance(n, A.Identifier) and isinstance(n.parts[0], str) and n.parts[0].startswith('p_'):
+                tag = n.parts[0][2:]
+            elif isinstance(n, A.Constant) and n.value in (777, 888):
+                tag = 'limit' if n.value == 777 else 'offset'
+            if tag and tag not in seen:
+                seen.append(tag)
+        query_traversal(parse_sql(sql, 'mindsdb'), cb)
+        _ORDERS[kind] = seen
+    return _ORDERS[kind]
+
+
 def walker_children(node):
-    """(kind, par, [(slot, child)]) — the branch of `query_traversal` for this class, callbacks returning None"""
+    """(kind, par, [(slot, child)]) — the branch of `query_traversal` for this class, callbacks returning None.
+    Which clauses of Select / Join / Update / Case are visited, and in which order, is probed from the live walker
+    (`clause_order`, `case_order`); the roles (table / target / other) are transcribed."""
     A = _ast()
     vis = []
     kind, par = 'P', None
     if isinstance(node, A.Select):
         kind = 'S'
         par = 'j' if isinstance(node.from_table, A.Join) else 's'
-        if node.from_table is not None:
-            vis.append(('t', node.from_table))
-        vis += [('g', t) for t in node.targets]
-        if node.cte is not None:
-            vis += [('a', c.query) for c in node.cte]
-        if node.where is not None:
-            vis.append(('a', node.where))
-        if node.group_by is not None:
-            vis += [('a', x) for x in node.group_by]
-        if node.having is not None:
-            vis.append(('a', node.having))
-        if node.order_by is not None:
-            vis += [('a', x) for x in node.order_by]
-        if node.limit is not None:
-            vis.append(('a', node.limit))
-        if node.offset is not None:
-            vis.append(('a', node.offset))
+        clauses = {
+            'from': [('t', node.from_table)] if node.from_table is not None else [],
+            'targets': [('g', t) for t in node.targets],
+            'cte': [('a', c.query) for c in (node.cte or [])],
+            'where': [('a', node.where)] if node.where is not None else [],
+            'group': [('a', x) for x in (node.group_by or [])],
+            'having': [('a', node.having)] if node.having is not None else [],
+            'order': [('a', x) for x in (node.order_by or [])],
+            'limit': [('a', node.limit)] if node.limit is not None else [],
+            'offset': [('a', node.offset)] if node.offset is not None else [],
+        }
+        for c in clause_order('Select'):
+            vis += clauses.get(c, [])
     elif isinstance(node, (A.Union, A.Intersect, A.Except)):
         kind, par = 'S', 'n'
         if getattr(node, 'cte', None) is not None:
             vis += [('a', c.query) for c in node.cte]
         vis += [('a', node.left), ('a', node.right)]
     elif isinstance(node, A.Join):
-        vis = [('t', node.right), ('t', node.left)]
-        if node.condition is not None:
-            vis.append(('a', node.condition))
+        clauses = {'left': [('t', node.left)], 'right': [('t', node.right)],
+                   'condition': [('a', node.condition)] if node.condition is not None else []}
+        for c in clause_order('Join'):
+            vis += clauses.get(c, [])
     elif isinstance(node, (A.Function, A.BinaryOperation, A.UnaryOperation, A.BetweenOperation, A.Exists, A.NotExists)):
         if isinstance(node, A.Function):
             kind = 'F'
@@ -295,14 +325,12 @@ def walker_children(node):
             vis.append(('a', node.from_select))
     elif isinstance(node, A.Update):
         kind, par = 'S', 'n'
-        if node.table is not None:
-            vis.append(('t', node.table))
-        if node.where is not None:
-            vis.append(('a', node.where))
-        if node.update_columns is not None:
-            vis += [('a', v) for v in node.update_columns.values()]
-        if node.from_select is not None:
-            vis.append(('a', node.from_select))
+        clauses = {'table': [('t', node.table)] if node.table is not None else [],
+                   'where': [('a', node.where)] if node.where is not None else [],
+                   'set': [('a', v) for v in (node.update_columns or {}).values()],
+                   'fromselect': [('a', node.from_select)] if node.from_select is not None else []}
+        for c in clause_order('Update'):
+            vis += clauses.get(c, [])
     elif isinstance(node, A.CreateTable):
         kind, par = 'S', 'n'
         vis += [('a', x) for x in (node.columns or [])]
@@ -914,6 +942,24 @@ def exc_class(e):
     if isinstance(e, NotImplementedError):
         return 'notImplemented'
     return 'crash:' + type(e).__name__
+
+
+def real_table_info(cat, parts, alias):
+    """`resolve_table` on an identifier operand: [integration, remaining parts, aliases, bare_name]; None = PlanningException"""
+    from mindsdb_sql.parser.ast import Identifier
+    from mindsdb_sql.planner.plan_join import PlanJoinTablesQuery
+    ident = Identifier(parts=list(parts), alias=Identifier(parts=list(alias)) if alias else None)
+    try:
+        item = PlanJoinTablesQuery(planner_for(cat)).resolve_table(ident)
+        return [item.integration, list(item.table.parts), [list(a) for a in item.aliases], bool(item.bare_name)]
+    except Exception as e:
+        return None if exc_class(e) == 'planningError' else ('EXC', exc_class(e))
+
+
+def model_table_info(js):
+    if js is None:
+        return None
+    return [None if js[0] is None else dec(js[0]), [dec(p) for p in js[1]], [[dec(p) for p in a] for a in js[2]], js[3]]
 
 
 def real_route(cat, parts):
